@@ -66,6 +66,9 @@ fn gen_cfg(ctx: &Ctx, rng: &mut Rng, text_entries: bool) -> (Xcfg, comm::ScriptI
     // one poll() call can be asked to wait)
     cfg.route.via_clone = rng.chance(250);
     cfg.route.late_stage = pipeline && rng.chance(400);
+    // ... or from a process that has closed some of its own standard descriptors: the pipes of the exchange then get
+    // the numbers 0..2 on the parent's side
+    cfg.route.free_std = if rng.chance(150) { rng.range(1, 7) as u8 } else { 0 };
     if matches!(entry, Entry::Start | Entry::ExecCommunicate | Entry::PipelineCommunicate) && rng.chance(250) {
         let far = *rng.pick(&[30u64 * 86400, 365 * 86400, 50 * 365 * 86400]);
         cfg.chain = vec![comm::Limit { size: None, time: Some(std::time::Duration::from_secs(far)) }];
@@ -444,6 +447,106 @@ pub fn run(ctx: &mut Ctx, which: Which) {
                     );
                 }
             }
+        });
+    }
+    if which.c01 {
+        // "all interleavings" includes other threads of the caller that start long-running, unrelated commands while
+        // an exchange is being set up: the exchange is over when its own child is done, not when those commands exit.
+        // Ordering, not timing: every unrelated command started so far lives for 30 s and is still running when a
+        // correct exchange returns.
+        let nc = ctx.n(48, 1200);
+        ctx.family("concurrent-with-unrelated-spawns", nc, |ctx, rng, i| {
+            use std::sync::atomic::{AtomicBool, Ordering::SeqCst};
+            use std::sync::{Arc, Mutex};
+            run::begin_case();
+            let dir = ctx.scratch("c01c");
+            // widen the windows between creating a descriptor, flagging it and forking
+            crate::plan::seed(rng.next());
+            crate::plan::add(crate::plan::Rule { kind: k::PIPE, scope: crate::plan::SCOPE_PARENT, nth: 0, fd: -1, act: crate::plan::ACT_DELAY_AFTER, val: -400, prob: 400 });
+            let nx = rng.range(2, 5) as usize;
+            let nl = rng.range(1, 3) as usize;
+            let rounds = rng.range(3, 8) as usize;
+            let lingerers: Arc<Mutex<Vec<i32>>> = Arc::new(Mutex::new(vec![]));
+            let stop = Arc::new(AtomicBool::new(false));
+            let vchild = ctx.vchild.clone();
+            let seeds: Vec<u64> = (0..nx * rounds).map(|_| rng.next() >> 1).collect();
+            let dir2 = dir.clone();
+            let m = run::monitored(|| {
+                let mut hs = vec![];
+                for _ in 0..nl {
+                    let (lingerers, stop, vchild) = (lingerers.clone(), stop.clone(), vchild.clone());
+                    hs.push(std::thread::spawn(move || {
+                        ilog::set_subject(true);
+                        let mut held = vec![];
+                        while !stop.load(SeqCst) && held.len() < 40 {
+                            if let Ok(p) = subprocess::Popen::create(&[vchild.clone().into_os_string(), "sleep".into(), "30000".into()], subprocess::PopenConfig { detached: true, ..Default::default() }) {
+                                if let Some(pid) = p.pid() {
+                                    lingerers.lock().unwrap().push(pid as i32);
+                                }
+                                held.push(p);
+                            }
+                            std::thread::sleep(std::time::Duration::from_micros(300));
+                        }
+                        ilog::set_subject(false);
+                        held
+                    }));
+                }
+                let mut xs = vec![];
+                for t in 0..nx {
+                    let (lingerers, vchild, dir2) = (lingerers.clone(), vchild.clone(), dir2.clone());
+                    let seeds: Vec<u64> = seeds[t * rounds..(t + 1) * rounds].to_vec();
+                    xs.push(std::thread::spawn(move || {
+                        ilog::set_subject(true);
+                        let mut bad: Vec<String> = vec![];
+                        let mut done = 0u64;
+                        for (r, seed) in seeds.iter().enumerate() {
+                            let n1 = 1 + seed % 5000;
+                            let rep = dir2.join(format!("x{}-{}.rep", t, r));
+                            let input = comm::input_for(*seed, (seed % 3000) as usize);
+                            let e = subprocess::Exec::cmd(&vchild).args(&["io", &seed.to_string(), &format!("R,w1:{}:512,w2:77:7,x0", n1)]).arg(&rep).stdin(input);
+                            let res = if r % 2 == 0 { e.capture().map(|c| c.stdout.len()) } else { e.communicate().and_then(|mut c| c.read().map(|(o, _)| o.map(|v| v.len()).unwrap_or(0)).map_err(|e| e.error.into())) };
+                            // at this moment every unrelated command started so far is still running (each lives 30 s)
+                            let snapshot: Vec<i32> = lingerers.lock().unwrap().clone();
+                            let gone: Vec<i32> = ilog::quiet(|| snapshot.iter().cloned().filter(|p| !matches!(crate::inspect::proc_state(*p), Some('S') | Some('R') | Some('D'))).collect());
+                            if !gone.is_empty() {
+                                bad.push(format!("exchange {} of thread {} ({:?}) returned only after unrelated commands {:?} had exited", r, t, res.as_ref().map_err(|e| e.to_string()), gone));
+                                break;
+                            }
+                            match res {
+                                Ok(n) if n as u64 == n1 => done += 1,
+                                other => bad.push(format!("exchange {} of thread {}: expected {} bytes of output, got {:?}", r, t, n1, other.map_err(|e| e.to_string()))),
+                            }
+                        }
+                        ilog::set_subject(false);
+                        (bad, done)
+                    }));
+                }
+                let results: Vec<(Vec<String>, u64)> = xs.into_iter().map(|h| h.join().unwrap_or((vec!["exchange thread panicked".into()], 0))).collect();
+                stop.store(true, SeqCst);
+                let held: Vec<Vec<subprocess::Popen>> = hs.into_iter().map(|h| h.join().unwrap_or_default()).collect();
+                (results, held)
+            });
+            ctx.count("exchange_storms", 1);
+            let w = |extra: J| J::obj().set("exchange_threads", J::i(nx as i64)).set("spawning_threads", J::i(nl as i64)).set("rounds", J::i(rounds as i64)).set("detail", extra);
+            if let Some(c) = &m.cert {
+                ctx.violation("C01/deadlock/concurrent", "an exchange deadlocked while other threads were spawning", w(run::cert_json(c)));
+            } else if let Some((results, held)) = m.result {
+                ctx.count("unrelated_commands_started_meanwhile", held.iter().map(|v| v.len() as i64).sum());
+                for (bad, done) in &results {
+                    ctx.count("exchanges", *done as i64);
+                    ctx.count("exchanges_terminated", *done as i64);
+                    if let Some(b) = bad.first() {
+                        let sig = if b.contains("only after unrelated") { "C01/returned-only-after-unrelated-commands-exited" } else { "C01/concurrent-exchange-wrong" };
+                        ctx.violation(sig, "with other threads of the caller starting unrelated long-running commands, an exchange did not finish when its own child was done", w(J::arr_s(bad)));
+                        break;
+                    }
+                }
+                drop(held);
+            } else if let Some(p) = &m.panic {
+                ctx.violation("C01/panic/concurrent", "panic", w(J::s(p)));
+            }
+            ctx.distinct(&format!("conc|{}|{}|{}|{}", nx, nl, rounds, i));
+            run::end_case();
         });
     }
     if which.c02 {
